@@ -34,13 +34,34 @@ ASSUMPTIONS = ['stored random numbers are inputs (nfw=False, no reseed): the NFW
 def gen(rng, tier):
     from e1_threads.harness import gen_sched
     c = HC.gen_tables(rng, tier, max_h=200, max_p=400) if (tier == 'thorough' and rng.random() < 0.3) else HC.gen_tables(rng, tier)
-    c['Nthread'] = rng.choice([1, 2, 3, 4, 5, 7, 8, 16, 16])
+    c['Nthread'] = rng.choice([1, 2, 3, 4, 5, 7, 8, 16, 16, rng.randrange(1, 17)])
     c['sched'] = gen_sched(rng)
     c['search'] = {'a': sorted(rng.sample(range(0, 400), rng.choice([0, 1, 5, 30]))),
                    'nb': rng.choice([0, 1, 7, 40])}
     c['search']['b'] = [rng.randrange(-5, 410) for _ in range(c['search']['nb'])]
     c['compiled'] = (tier == 'thorough' and rng.random() < 0.05)
     return c
+
+
+def sweep(tier):
+    """Complete over (host-table size 0..HMAX, Nthread 1..16) with every host selected: the rounded
+    per-thread block boundaries, counters and prefix offsets only misalign for particular pairs."""
+    import random
+    HMAX = 260 if tier == 'thorough' else 130
+    rng = random.Random(10)
+    lrg = {'logM_cut': 12.5, 'logM1': 13.5, 'sigma': 0.5, 'alpha': 1.0, 'kappa': 0.5, 'alpha_c': 0.2, 'alpha_s': 0.9,
+           's': 0.0, 's_v': 0.0, 's_p': 0.0, 's_r': 0.0, 'Acent': 0.0, 'Asat': 0.0, 'Bcent': 0.0, 'Bsat': 0.0, 'ic': 1.0}
+    for T in range(1, 17):
+        for Hn in range(0, HMAX + 1):
+            halos = [{'pos': [i * 0.5 - 40, 3.0, -7.0 + i * 0.1], 'vel': [10.0 + i, -5.0, 2.0], 'logm': 13.0 + (i % 7) * 0.1,
+                      'id': 1000 + 3 * i, 'multi': 1.0, 'random': 0.0, 'vdev': [1.0, 2.0, 3.0], 'deltac': 0.0, 'fenv': 0.0,
+                      'shear': 0.0, 'edge': None} for i in range(Hn)]
+            parts = [{'hidx': i, 'pos': [i * 0.5 - 39.9, 3.1, -6.9], 'vel': [20.0, 1.0 + i, 0.0], 'weight': 1.0, 'random': 0.0,
+                      'ranks': [0.0] * 5, 'edge': None} for i in range(Hn)]
+            yield {'L': 500.0, 'halos': halos, 'parts': parts, 'tracers': {'LRG': dict(lrg)}, 'Mpart': 2.1e9, 'velz2kms': 100.0,
+                   'rsd': True, 'origin': None, 'enable_ranks': False, 'want_AB': False, 'want_shear': False, 'z': 0.5,
+                   'Nthread': T, 'sched': {'policy': 'static', 'strategy': 'serial', 'seed': Hn * 16 + T},
+                   'search': {'a': [], 'b': [], 'nb': 0}, 'compiled': False, 'sweep': True}
 
 
 def warmup():
